@@ -74,9 +74,22 @@ Definition count_proofs (fx_dup : bool) (ps : list proof) : list (Z * Z) * list 
 Definition INT64_MAX : Z := 9223372036854775807.
 Definition UINT64_MAX : Z := 18446744073709551615.
 
-(* keeper_threshold.go:33
-   min(max(rf.MulInt64(n).QuoInt64(numActive).Ceil().TruncateInt64(), 1), n) *)
+(* keeper_threshold.go (after "bound the DA replication factor ...", 9a90e6f):
+     if numActive == 0 { return 0, error }            -- [no_active], handled by the caller
+     c := rf.MulInt64(n).QuoInt64(numActive).Ceil()
+     threshold := n; if c.LT(NewDec(n)) { threshold = max(c.TruncateInt64(), 1) }
+   None = panic (decimal range, Int64() out of bound). *)
 Definition zkp_threshold (rf n nact : Z) : option Z :=
+  let? a := dmul_int rf n in
+  let? b := dquo_int a nact in
+  let? c := dceil b in
+  if c <? n * P then
+    let t := dtrunc_int c in
+    if (t <=? INT64_MAX) && (- INT64_MAX - 1 <=? t) then Some (Z.max t 1) else None
+  else Some n.
+
+(* the formula before that commit: min(max(ceil(..).TruncateInt64(), 1), n) *)
+Definition zkp_threshold_old (rf n nact : Z) : option Z :=
   let? a := dmul_int rf n in
   let? b := dquo_int a nact in
   let? c := dceil b in
@@ -139,15 +152,24 @@ Record tstate := { ts_fc : Z -> Z;   (* fault counter per operator, 0 = no entry
 Definition bump (f : Z -> Z) (v : Z) : Z -> Z := fun x => if x =? v then f x + 1 else f x.
 
 (* [fx_leak] = repair "faultValidators is created per item". *)
+(* The verdict list carries None for an item that was skipped: with no bonded validator
+   GetZkpThreshold returns an error, the tally logs it and `continue`s — status, records and
+   counters of the item stay as they are. *)
 Fixpoint tally_items (fx_dup fx_leak fx_guard : bool) (rf : Z) (active : list Z) (fs : list Z)
-  (its : list item) (st : tstate) : option (tstate * list verdict) :=
+  (its : list item) (st : tstate) : option (tstate * list (option verdict)) :=
   match its with
   | [] => Some (st, [])
   | it :: tl =>
-      let? r := tally_item fx_dup fx_guard rf active (if fx_leak then [] else fs) it in
-      let st' := {| ts_fc := fold_left bump (ir_faults r) (ts_fc st); ts_cc := ts_cc st + 1 |} in
-      let? (st'', vs) := tally_items fx_dup fx_leak fx_guard rf active (ir_faults r) tl st' in
-      Some (st'', ir_verdict r :: vs)
+      match active with
+      | [] =>
+          let? (st'', vs) := tally_items fx_dup fx_leak fx_guard rf active fs tl st in
+          Some (st'', None :: vs)
+      | _ :: _ =>
+          let? r := tally_item fx_dup fx_guard rf active (if fx_leak then [] else fs) it in
+          let st' := {| ts_fc := fold_left bump (ir_faults r) (ts_fc st); ts_cc := ts_cc st + 1 |} in
+          let? (st'', vs) := tally_items fx_dup fx_leak fx_guard rf active (ir_faults r) tl st' in
+          Some (st'', Some (ir_verdict r) :: vs)
+      end
   end.
 
 (* ------------------------------------------------------------------ epoch end *)
@@ -189,7 +211,7 @@ Definition all_fixed := {| fx_dup := true; fx_leak := true; fx_guard := true; fx
 Definition as_found := {| fx_dup := false; fx_leak := false; fx_guard := false; fx_reset := false |}.
 
 Definition end_block (fx : fixes) (rf sft : Z) (epoch : bool) (active : list Z) (info : Z -> vinfo)
-  (dom : list Z) (its : list item) (st : tstate) : option (tstate * list verdict * list Z) :=
+  (dom : list Z) (its : list item) (st : tstate) : option (tstate * list (option verdict) * list Z) :=
   let? (st1, vs) := tally_items (fx_dup fx) (fx_leak fx) (fx_guard fx) rf active [] its st in
   if epoch then
     let? (sl, st2) := slash_epoch (fx_reset fx) sft info dom st1 in Some (st2, vs, sl)
@@ -255,9 +277,19 @@ Definition item_wf (it : item) : bool :=
 Definition faults_in (rf : Z) (active : list Z) (its : list item) (x : Z) : Z :=
   Z.of_nat (length (filter (fun it => faulted_spec rf active it x) its)).
 
+(* with no bonded validator nothing is tallied *)
+Definition tallied (active : list Z) (its : list item) : list item :=
+  match active with [] => [] | _ :: _ => its end.
+
+Definition expected_verdicts (rf : Z) (active : list Z) (its : list item) : list (option verdict) :=
+  match active with
+  | [] => map (fun _ => None) its
+  | _ :: _ => map (fun it => Some (verdict_spec rf it)) its
+  end.
+
 Definition mid_of (rf : Z) (active : list Z) (its : list item) (st : tstate) : tstate :=
   {| ts_fc := fun x => ts_fc st x + faults_in rf active its x;
-     ts_cc := ts_cc st + Z.of_nat (length its) |}.
+     ts_cc := ts_cc st + Z.of_nat (length (tallied active its)) |}.
 
 (* epoch end, from the property text: "at epoch end exactly the bonded validators whose
    faults exceed the threshold share of challenges are slashed and jailed, and counters
